@@ -12,10 +12,10 @@ fit    origins placed exactly on a plane / constant inside the detector: fit_ori
 shift  integer fitted origins: shift_origin_to((0, 0)) == circular roll of every pattern.
 
 Tolerances (clean-tree errors measured over 1500-5000 random cases, see the meta entry):
-  TOL_COM   1e-3 px  float32 weighted means (measured max 2e-6; worst-case sequential float32
+  TOL_COM   1e-3 px  float32 weighted means (measured max 2.2e-6; worst-case sequential float32
                      summation bound for 144 pixels and coordinates <= 11 is ~1e-4)
-  TOL_FIT32 1e-3 px  float32 PCA plane / mean (measured max 8e-6)
-  TOL_FIT64 1e-6 px  float64 curve_fit / mean (measured max 4e-15)
+  TOL_FIT32 1e-3 px  float32 PCA plane / mean (measured max 2.1e-5 on the steepest planes)
+  TOL_FIT64 1e-6 px  float64 curve_fit / mean (measured max 2.5e-9)
   TOL_ROLL  2e-5 * max|pattern|  grid_sample at integer positions (measured max 1.2e-6, bicubic)
 """
 
@@ -34,7 +34,7 @@ TOL_ROLL = 2e-5
 UNITS = ["A", "A", "A^-1", "A^-1"]
 # known-finding key (only consulted when known_findings.json lists it as an open finding): the
 # curve_fit based fitter raises RuntimeError (MINPACK info=8) on some origin maps that it fits exactly
-KEY_EXACT = "C18-fit-origin-exact-fit-raises"
+KEY_EXACT = "fit-origin-exact-fit-raises"
 
 
 class _ExactFitRaised(Exception):
